@@ -115,6 +115,9 @@ class Ctx:
     def child(self, **kw):
         c = Ctx(self.comp, self.frame, self.env, self.ret_k, list(self.handlers), list(self.loops),
                 list(self.finallies))
+        for a, v in self.__dict__.items():  # qual, gdecl, inline_stack, current_exc, ...
+            if a not in c.__dict__:
+                c.__dict__[a] = v
         c.__dict__.update(kw)
         return c
 
@@ -141,6 +144,7 @@ class Compiler:
         self.ctors = {}         # name -> fn(args, kwargs) -> rexpr
         self.unroll = {}        # object name -> universe size (for loops over dict values)
         self.ref_exc = {}       # object name -> exception class raised by `raise <that object>`
+        self.kwargs_expanders = {}  # record class -> fn(fields) -> {keyword: rexpr}
 
     # ------------------------------------------------------------------ entry
     def compile_call(self, obj, method, args_rexpr, end_label="end"):
@@ -216,11 +220,24 @@ class Compiler:
         return ("v", tmp)
 
     def inline(self, fdef, args, kwargs, ctx, k, qual):
+        depth = getattr(ctx, "inline_stack", ())
+        if depth.count(qual) >= 2:
+            # the same function is already being inlined twice on this path: cut the recursion with an
+            # explicit failure node (reaching it is reported, not silently ignored)
+            return Node("fail", reason=f"recursion deeper than 2 in {qual}", exc="RecursionError", where=qual)
         frame = f"f{next(self.frames)}"
         env = {}
+        if "**" in kwargs:
+            # f(**kw) where kw is a record standing for a keyword dict: expand it through the slice's table
+            kw = kwargs["**"]
+            exp = self.kwargs_expanders.get(kw[1]) if kw[0] == "rec" else None
+            if exp is None:
+                raise Unsupported(f"**kwargs of unknown shape in call of {qual}")
+            kwargs = dict(exp(kw[2]), **{a: b for a, b in kwargs.items() if a != "**"})
         params = [a.arg for a in fdef.args.args]
         defaults = [None] * (len(params) - len(fdef.args.defaults)) + list(fdef.args.defaults)
         pre = []  # assignments of dynamic args to frame locals
+        assigned = {n.id for b in fdef.body for n in ast.walk(b) if isinstance(n, ast.Name) and isinstance(n.ctx, ast.Store)}
         for i, p in enumerate(params):
             if i < len(args):
                 v = args[i]
@@ -230,7 +247,13 @@ class Compiler:
                 v = self.pure(defaults[i], Ctx(self, frame, {}, None, [], [], []))
             else:
                 raise Unsupported(f"missing argument {p} for {qual}")
-            if v[0] in ("o", "c", "meth", "bound", "recmeth") or (v[0] == "v" and v[1] in self.immutable):
+            typable = v[0] == "v" or (v[0] == "c" and isinstance(v[1], (bool, int)) and v[1] is not None)
+            if p in assigned and typable:
+                # the parameter is re-assigned somewhere in the body: it lives in a frame local from the start,
+                # so that every path reads the same variable
+                env[p] = ("v", f"{frame}.{p}")
+                pre.append((f"{frame}.{p}", v))
+            elif v[0] in ("o", "c", "meth", "bound", "recmeth") or (v[0] == "v" and v[1] in self.immutable):
                 env[p] = v
             elif v[0] == "rec":
                 fields = {}
@@ -254,6 +277,7 @@ class Compiler:
             raise Unsupported(f"too many arguments for {qual}")
         inner = Ctx(self, frame, env, k, ctx.handlers, [], ctx.finallies)
         inner.qual = qual
+        inner.inline_stack = depth + (qual,)
         body = self.stmts(fdef.body, inner, lambda: k(("c", None)))
         for name, v in reversed(pre):
             body = Node("assign", target=name, value=v, next=body)
@@ -310,15 +334,20 @@ class Compiler:
         return self.expr(s.value, ctx, after)
 
     def s_Assign(self, s, ctx, k):
-        if len(s.targets) != 1:
-            raise Unsupported("multi-target assignment")
-        t = s.targets[0]
-
         def after(r):
-            return self.store(t, r, ctx, k)
+            def chain(i):
+                if i == len(s.targets):
+                    return k()
+                return self.store(s.targets[i], r, ctx, lambda: chain(i + 1))
+            return chain(0)
         return self.expr(s.value, ctx, after)
 
     def store(self, t, r, ctx, k):
+        if isinstance(t, ast.Name) and t.id in getattr(ctx, "gdecl", ()):
+            g = self.comp_globals().get(t.id)
+            if g is None or g[0] != "gfield":
+                raise Unsupported(f"assignment to unmodelled global {t.id}")
+            return self.prim_call(g[1], f"set:{t.id}", [r], {}, ctx, lambda _: k())
         if isinstance(t, ast.Name):
             if r[0] == "o" and t.id not in ctx.env:
                 ctx.env[t.id] = r  # static alias of a model object
@@ -648,6 +677,9 @@ class Compiler:
         return self.expr(t.value, ctx, after_obj)
 
     def s_Global(self, s, ctx, k):
+        if not hasattr(ctx, "gdecl"):
+            ctx.gdecl = set()
+        ctx.gdecl.update(s.names)
         return k()
 
     # ------------------------------------------------------------------ expressions
@@ -673,11 +705,23 @@ class Compiler:
         def after(r):
             if r[0] == "c" and not (isinstance(r[1], tuple)):
                 return kt() if r[1] else kf()
+            env0 = dict(ctx.env)
+
+            def kf_r():
+                # the else-branch is compiled from the environment as it was before the then-branch
+                saved = dict(ctx.env)
+                ctx.env.clear()
+                ctx.env.update(env0)
+                try:
+                    return kf()
+                finally:
+                    for n2, v2 in saved.items():
+                        ctx.env.setdefault(n2, v2)
             if r[0] == "o":
                 model = self.objects[r[1]].get("model")
                 if model is not None and model.spec("__bool__") is not None:
                     return self.prim_call(r[1], "__bool__", [], {}, ctx,
-                                          lambda b: Node("branch", test=b, t=kt(), f=kf()))
+                                          lambda b: Node("branch", test=b, t=kt(), f=kf_r()))
                 return kt()
             if r[0] == "rec":
                 pres = r[2].get("?")
@@ -685,9 +729,9 @@ class Compiler:
                     tr = self.rec_attrs.get((r[1], "__bool__"))
                     if tr is None:
                         return kt()
-                    return Node("branch", test=tr(r[2]), t=kt(), f=kf())
-                return Node("branch", test=pres, t=kt(), f=kf())
-            return Node("branch", test=r, t=kt(), f=kf())
+                    return Node("branch", test=tr(r[2]), t=kt(), f=kf_r())
+                return Node("branch", test=pres, t=kt(), f=kf_r())
+            return Node("branch", test=r, t=kt(), f=kf_r())
         return self.expr(e, ctx, after)
 
     def expr(self, e, ctx, k):
@@ -708,9 +752,11 @@ class Compiler:
         return k(("c", e.value))
 
     def e_Name(self, e, ctx, k):
-        if e.id in ctx.env:
+        if e.id in ctx.env and e.id not in getattr(ctx, "gdecl", ()):
             return k(ctx.env[e.id])
         g = self.comp_globals().get(e.id)
+        if g is not None and g[0] == "gfield":
+            return self.prim_call(g[1], f"get:{e.id}", [], {}, ctx, k)  # mutable module-level state
         if g is not None:
             return k(g)
         if e.id in ("int", "str", "bool") or e.id in self.ctors or e.id in EXC_PARENTS:
@@ -913,6 +959,12 @@ class Compiler:
                 and not isinstance(a[1], bool) and not isinstance(b[1], bool) and op in ("<", "<=", ">", ">=", "==", "!="):
             return k(("c", {"<": a[1] < b[1], "<=": a[1] <= b[1], ">": a[1] > b[1], ">=": a[1] >= b[1],
                             "==": a[1] == b[1], "!=": a[1] != b[1]}[op]))
+        if a[0] == "c" and b[0] == "c" and op in ("is", "isnot") and (a[1] is None or b[1] is None or
+                                                                  isinstance(a[1], bool) or isinstance(b[1], bool)):
+            same = (a[1] is b[1])
+            return k(("c", same if op == "is" else not same))
+        if a[0] in ("o", "meth", "bound", "tuple", "list") and b == ("c", None) and op in ("is", "isnot"):
+            return k(("c", op == "isnot"))
         if a[0] == "c" and b[0] == "c" and isinstance(a[1], str) and isinstance(b[1], str) and op in ("==", "!="):
             return k(("c", (a[1] == b[1]) == (op == "==")))
         return k(("cmp", op, a, b))
@@ -953,7 +1005,7 @@ class Compiler:
                     return k(("c", None))
                 return self.expr(plain[i], ctx, lambda r: chain(i + 1))
             return chain(0)
-        kwargs_ast = {kw.arg: kw.value for kw in e.keywords}
+        kwargs_ast = {(kw.arg if kw.arg is not None else "**"): kw.value for kw in e.keywords}
 
         def with_args(args, kwargs):
             if isinstance(e.func, ast.Attribute):
@@ -1000,6 +1052,8 @@ class Compiler:
 
     def call_name(self, name, args, kwargs, ctx, k, e):
         g = self.comp_globals().get(name)
+        if name in ctx.env and ctx.env[name][0] == "o":
+            return self.call_method(ObjRef(ctx.env[name][1]), "__call__", args, kwargs, ctx, k)
         if name in ctx.env and ctx.env[name][0] == "rec":
             r = ctx.env[name]
             rm = self.rec_methods.get((r[1], "__call__"))
@@ -1030,6 +1084,11 @@ class Compiler:
                 if fn is None:
                     raise Unsupported(f"isinstance on {a[1]} record")
                 return k(fn(a[2], args[1]))
+            if a[0] == "c" and args[1][0] == "c" and isinstance(args[1][1], tuple) and args[1][1][0] == "type":
+                tyname = args[1][1][1]
+                pyty = {"int": int, "str": str, "bool": bool}.get(tyname)
+                if pyty is not None:
+                    return k(("c", isinstance(a[1], pyty) and not (pyty is int and isinstance(a[1], bool))))
             raise Unsupported("isinstance on non-record")
         if name in ("int", "bool") and len(args) == 1:
             return k(args[0])
